@@ -76,9 +76,36 @@ Section Loop.
               else Ok (verts L ++ [point]));
     let L' := set_verts L vs in
     if Nat.eqb (length vs) 3 then loop_set_normal L' else Ok L'.
-  (** [loop_push_gen true] = the pinned snapshot b5e97ad (unwrap + duplicate); [loop_push_gen false] = the live code *)
+  (** [loop_push_gen true] = the pinned snapshot b5e97ad (unwrap + duplicate); [loop_push_gen false] = the code before the
+      fix of push/close (findings C04:...:after-replacement, stale-normal): kept as [loop_push_pre] for the witnesses *)
   Definition loop_push_gen (pinned : bool) := loop_push_gen2 pinned pinned.
-  Definition loop_push := loop_push_gen false.
+  Definition loop_push_pre := loop_push_gen false.
+
+  (** the live [push]: `let mut keep = n; while keep >= 2 && v[keep-2].is_collinear(v[keep-1], point)? { keep -= 1 }` --
+      every trailing vertex that the new point makes redundant goes (the corner exposed by each drop is tested again); the
+      count is computed before anything is mutated.  [fuel] = n bounds the loop (keep decreases from n to at least 1). *)
+  Fixpoint push_keep (vs : list V) (point : V) (keep fuel : nat) : res nat :=
+    match fuel with
+    | O => Ok keep
+    | S f =>
+      if Nat.leb 2 keep then
+        do col <- is_collinear (vnth vs (Nat.sub keep 2)) (vnth vs (Nat.sub keep 1)) point;
+        if col then push_keep vs point (Nat.sub keep 1) f else Ok keep
+      else Ok keep
+    end.
+  Definition loop_push (L : Loop) (point : V) : res Loop :=
+    do _ <- valid_to_add L point;
+    let n := llen L in
+    do vs <- (if Nat.leb 2 n then
+                let a := vnth (verts L) (Nat.sub n 2) in
+                if vcompare a point then Ok (removelast (verts L)) else
+                do keep <- push_keep (verts L) point n n;
+                Ok (firstn keep (verts L) ++ [point])
+              else Ok (verts L ++ [point]));
+    let L' := set_verts L vs in
+    if Nat.eqb (length vs) 3 then loop_set_normal L'
+    else if Nat.ltb (length vs) 3 then Ok (set_normal_field L' vzero)   (* fewer than three vertices: no plane (any more) *)
+    else Ok L'.
 
   Fixpoint sum_cross (vs : list V) (first : V) (acc : V) : V :=
     match vs with
@@ -109,8 +136,8 @@ Section Loop.
     if Nat.ltb (llen L) 3 then Err 33%N else
     Ok (mkLoop (verts L) (lnormal L) (lclosed L) (larea L) (sum_len (verts L) (vnth (verts L) O) n0)).
 
-  (** [close]: new state + outcome (the state may have changed even when the outcome is an error) *)
-  Definition loop_close (L : Loop) : Loop * res unit :=
+  (** [close] before the fix of push/close (kept for the witnesses): new state + outcome *)
+  Definition loop_close_pre (L : Loop) : Loop * res unit :=
     if Nat.ltb (llen L) 3 then (L, Err 33%N) else
     let n := llen L in
     match is_collinear (vnth (verts L) (Nat.sub n 2)) (vnth (verts L) (Nat.sub n 1)) (vnth (verts L) O) with
@@ -125,6 +152,67 @@ Section Loop.
         | Err c => (L1, Err c) | Panic s => (L1, Panic s)
         | Ok col2 =>
           let L2 := if col2 then set_verts L1 (tl (verts L1)) else L1 in
+          let L3 := mkLoop (verts L2) (lnormal L2) true (larea L2) (lperim L2) in
+          match loop_set_area L3 with
+          | Err c => (L3, Err c) | Panic s => (L3, Panic s)
+          | Ok L4 =>
+            match loop_set_perimeter L4 with
+            | Err c => (L4, Err c) | Panic s => (L4, Panic s)
+            | Ok L5 => (L5, Ok tt)
+            end
+          end
+        end
+      end
+    end.
+
+  (** the live [close]: new state + outcome (the state may have changed even when the outcome is an error).
+      `last_is_redundant`, `while self.last_is_redundant()? { pop }` and the loop over the first vertex; fuel = the number of
+      vertices bounds each loop (every iteration removes a vertex). *)
+  Definition last_is_redundant (vs : list V) : res bool :=
+    let n := length vs in
+    if Nat.ltb n 3 then Ok false else is_collinear (vnth vs (Nat.sub n 2)) (vnth vs (Nat.sub n 1)) (vnth vs O).
+  Fixpoint pop_redundant (vs : list V) (fuel : nat) : list V * res unit :=
+    match fuel with
+    | O => (vs, Ok tt)
+    | S f =>
+      match last_is_redundant vs with
+      | Ok true => pop_redundant (removelast vs) f
+      | Ok false => (vs, Ok tt)
+      | Err c => (vs, Err c) | Panic s => (vs, Panic s)
+      end
+    end.
+  Fixpoint drop_first_redundant (vs : list V) (fuel : nat) : list V * res unit :=
+    match fuel with
+    | O => (vs, Ok tt)
+    | S f =>
+      let n := length vs in
+      if Nat.ltb n 3 then (vs, Ok tt) else
+      match is_collinear (vnth vs (Nat.sub n 1)) (vnth vs O) (vnth vs (S O)) with
+      | Ok false => (vs, Ok tt)
+      | Ok true =>
+        let '(vs1, r) := pop_redundant (tl vs) n in
+        match r with Ok _ => drop_first_redundant vs1 f | _ => (vs1, r) end
+      | Err c => (vs, Err c) | Panic s => (vs, Panic s)
+      end
+    end.
+  Definition loop_close (L : Loop) : Loop * res unit :=
+    if lclosed L then (L, Err 30%N) else
+    if Nat.ltb (llen L) 3 then (L, Err 33%N) else
+    let '(vs1, r1) := pop_redundant (verts L) (llen L) in
+    let L1 := set_verts L vs1 in
+    match r1 with
+    | Err c => (L1, Err c) | Panic s => (L1, Panic s)
+    | Ok _ =>
+      if Nat.ltb (length vs1) 3 then (L1, Err 33%N) else
+      match valid_to_add L1 (vnth vs1 O) with
+      | Err c => (L1, Err c) | Panic s => (L1, Panic s)
+      | Ok _ =>
+        let '(vs2, r2) := drop_first_redundant vs1 (length vs1) in
+        let L2 := set_verts L1 vs2 in
+        match r2 with
+        | Err c => (L2, Err c) | Panic s => (L2, Panic s)
+        | Ok _ =>
+          if Nat.ltb (length vs2) 3 then (L2, Err 33%N) else
           let L3 := mkLoop (verts L2) (lnormal L2) true (larea L2) (lperim L2) in
           match loop_set_area L3 with
           | Err c => (L3, Err c) | Panic s => (L3, Panic s)
@@ -251,6 +339,17 @@ Section Loop.
     match op with
     | LPush p => match loop_push L p with Ok L' => (L', Ok tt) | Err c => (L, Err c) | Panic s => (L, Panic s) end
     | LClose => loop_close L
+    end.
+  (** the same with the code before the fix of push/close *)
+  Definition loop_step_pre (L : Loop) (op : lop) : Loop * res unit :=
+    match op with
+    | LPush p => match loop_push_pre L p with Ok L' => (L', Ok tt) | Err c => (L, Err c) | Panic s => (L, Panic s) end
+    | LClose => loop_close_pre L
+    end.
+  Fixpoint loop_run_pre (L : Loop) (ops : list lop) : Loop * list (res unit) :=
+    match ops with
+    | [] => (L, [])
+    | op :: tl => let '(L', o) := loop_step_pre L op in let '(L'', os) := loop_run_pre L' tl in (L'', o :: os)
     end.
   (** the whole history: final state and the list of outcomes *)
   Fixpoint loop_run (L : Loop) (ops : list lop) : Loop * list (res unit) :=
